@@ -13,7 +13,9 @@ pub const HOSTS: &[&str] = &[
     "x.com", "bar.foo.com", "ad.foo.com", "track.net", "net.com", "com.net", "example.co.uk",
     "localhost", "a1.x.com",
 ];
-pub const DOMAINS: &[&str] = &["a.com", "b.com", "sub.a.com", "example.com", "foo.com", "x.net"];
+pub const DOMAINS: &[&str] = &["a.com", "b.com", "sub.a.com", "example.com", "foo.com", "x.net", "site.org"];
+/// what a `domain=` option may name besides DOMAINS: bare public suffixes (every initiator under them)
+pub const DOMAIN_SUFFIXES: &[&str] = &["com", "org", "net"];
 pub const TYPES: &[&str] = &[
     "script", "image", "stylesheet", "xmlhttprequest", "subdocument", "document", "main_frame",
     "sub_frame", "font", "media", "object", "ping", "websocket", "other", "beacon", "csp_report",
@@ -117,7 +119,7 @@ pub fn domain_opt(r: &mut Rng) -> String {
     let n = r.range(1, 3);
     let mut v = vec![];
     for _ in 0..n {
-        let d = r.pick(DOMAINS);
+        let d = if r.chance(1, 6) { r.pick(DOMAIN_SUFFIXES) } else { r.pick(DOMAINS) };
         v.push(if r.chance(1, 4) { format!("~{}", d) } else { d.to_string() });
     }
     format!("domain={}", v.join("|"))
@@ -185,6 +187,30 @@ pub fn siblings(r: &mut Rng, modifiers: bool) -> Vec<String> {
         }
         v.push(s);
     }
+    // twins of a sibling that differ from it in exactly ONE respect: only the tag (another tag,
+    // or a tag where there was none), only redirect= vs redirect-rule=, only a trailing $badfilter
+    if r.chance(1, 3) {
+        let base = v[r.below(v.len())].clone();
+        let twin = match r.below(3) {
+            0 => {
+                let t = format!("tag={}", r.pick(TAGS));
+                if let Some(i) = base.find("tag=") {
+                    let end = base[i..].find(',').map(|k| i + k).unwrap_or(base.len());
+                    format!("{}{}{}", &base[..i], t, &base[end..])
+                } else if base.contains('$') {
+                    format!("{},{}", base, t)
+                } else {
+                    format!("{}${}", base, t)
+                }
+            }
+            1 if base.contains("redirect=") => base.replace("redirect=", "redirect-rule="),
+            1 if base.contains("redirect-rule=") => base.replace("redirect-rule=", "redirect="),
+            _ => {
+                if base.contains("badfilter") { base.clone() } else if base.contains('$') { format!("{},badfilter", base) } else { format!("{}$badfilter", base) }
+            }
+        };
+        if r.chance(1, 2) { v.push(twin) } else { v.insert(0, twin) }
+    }
     v
 }
 
@@ -196,7 +222,7 @@ pub fn rule_list(r: &mut Rng, n: usize, modifiers: bool) -> Vec<String> {
             // a rule dispatched per source domain: no pattern token, several domains, one token group
             // (and one bucket) per domain
             let k = r.range(2, 3);
-            let ds: Vec<&str> = (0..k).map(|_| r.pick(DOMAINS)).collect();
+            let ds: Vec<&str> = (0..k).map(|_| if r.chance(1, 5) { r.pick(DOMAIN_SUFFIXES) } else { r.pick(DOMAINS) }).collect();
             lines.push(format!("{}${},domain={}", if r.chance(1, 4) { "@@" } else { "" }, r.pick(&["script", "image", "xhr", "third-party", "font"]), ds.join("|")));
         } else if r.chance(1, 4) {
             lines.extend(siblings(r, modifiers));
@@ -256,6 +282,14 @@ pub fn source_url(r: &mut Rng) -> String {
         (r.pick(DOMAINS)).to_string()
     } else {
         (r.pick(HOSTS)).to_string()
+    };
+    // initiators of every depth: 0-7 labels in front of the host a rule may name in `domain=`
+    let h = if r.chance(1, 3) {
+        let k = r.range(1, 7);
+        let labels: Vec<&str> = (0..k).map(|_| r.pick(&["a", "b", "c", "d", "www", "m", "x1"])).collect();
+        format!("{}.{}", labels.join("."), h)
+    } else {
+        h
     };
     format!("https://{}/page", h)
 }
